@@ -48,7 +48,7 @@ CLAIMED = {
          NOTE_COMMON + 'SHA-256 is a parameter.', 'Lean 4 proof (hand model) + differential correspondence', '6/C05'),
  'C15': ('Kernel-checked theorems: 80-byte header parse/serialise round trip with little-endian fields and reversed hashes, block hash = reversed '
          'double-SHA256, compact target expansion, the independent length scanner agrees with the serialiser on every well-formed transaction, and '
-         'parsing a framed block yields exactly the parses of the slices (any number of transactions). Model tied to the code by the correspondence '
+         'parsing a framed block yields exactly the parses of the slices (any number of transactions). get_transaction_length is re-translated on every run and proved to agree with the model scanner on every byte string (tier T). Model tied to the code by the correspondence '
          'run incl. the three mainnet blocks in full (merkle root, witness commitment, per-transaction re-serialisation).',
          NOTE_COMMON + 'SHA-256 is a parameter.', 'Lean 4 proof (hand model) + differential correspondence', '6/C15'),
  'C08': ('Kernel-checked theorems for every tree shape, depth and leaf index (no bound): the merkle root is BIP341\'s (TapLeaf 0xc0 / sorted '
@@ -67,9 +67,12 @@ CLAIMED = {
  'C20': ('Kernel-checked theorems: generated RIPEMD-160 tables and curve constants equal the specification\'s; the hand model of ripemd160.py '
          'equals Merkle-Damgard padding + fold of the specification\'s compression function for messages of every length; tagged hash definition; '
          'schnorr_verify equals BIP340 verification on all inputs (length, range and off-curve rejection), schnorr_sign returns exactly the BIP340 '
-         'signature, which verifies; signing never fails (group law proved). Model tied to the code by the correspondence run (libsecp256k1 as cross-oracle).',
-         NOTE_COMMON + 'RIPEMD-160 modelled over 32-bit words (masking abstraction covered by correspondence).',
-         'Lean 4 proof (hand model + generated tables) + differential correspondence', '6/C20'),
+         'signature, which verifies; signing never fails (group law proved). Tier T (source re-translated on every run): the whole of ripemd160.py '
+         '(rol, fi, compress, ripemd160) is proved equal to the word-level model and hence to the specification for every message < 2^61 bytes, and '
+         'the curve arithmetic of schnorr.py (point_add, point_mul, lift_x, has_even_y) is proved equal to the executable secp256k1 functions the '
+         'group law is proved about. schnorr_sign / schnorr_verify themselves are a hand model tied to the code by the correspondence run (libsecp256k1 as cross-oracle).',
+         NOTE_COMMON + 'SHA-256 parameter.',
+         'Lean 4 proof over translated source (RIPEMD-160, curve arithmetic) and hand model (BIP340 sign/verify) + differential correspondence', '6/C20'),
  'C06': ('Kernel-checked theorems for every (r, s) in range (all byte-length classes): the hand model of the repository\'s own logic in _sign_input '
          '(low-R grinding on byte 3, decode, low-S, re-encode, hash-type byte) yields a strictly DER (BIP66) signature with r < 2^255, the low '
          'representative of s and exactly the hash-type byte; replacing s by n-s preserves validity (secp256k1 group law proved, no hypothesis). python-ecdsa (RFC6979 signing, DER '
@@ -93,7 +96,8 @@ CLAIMED = {
          'bech32.py), objects re-created from string or program hold the identical program, whatever is accepted has the right prefix, single '
          'case, charset, version and checksum variant, the predicate is true on every valid address and false on mixed case / bad checksum. '
          'Substitutions: the checksum is proved GF(2)-linear and every 1- or 2-character substitution in the data part is proved rejected (1829 '
-         'single-error syndromes evaluated in the kernel); 3 and 4 substitutions are checked exhaustively by the compiled driver on every run (not a proof). Model tied to the code by the correspondence run.',
+         'single-error syndromes evaluated in the kernel); 3 and 4 substitutions are checked exhaustively by the compiled driver on every run (not a proof). The leaves of bech32.py (polymod, hrp_expand, '
+         'verify/create checksum, convertbits) are re-translated on every run and proved equal to the hand model on all inputs (tier T); decode/encode and the address classes are tied by the correspondence run.',
          NOTE_COMMON + 'partial: detection of 3-4 substituted characters rests on an exhaustive compiled computation, not on a theorem.',
          'Lean 4 proof (hand model) + differential correspondence', '6/C11'),
  'C12': ('Kernel-checked theorems: the five locking-script templates evaluate, through the generated opcode dictionaries and the push-form tie, to the '
